@@ -107,7 +107,7 @@ def run_real(text, init, pattern, limit=60000, debug=False, parse=None, timeout=
             'reads': dict(g.reads), 'count': options.get('statementCount'), 'host_after': {k: g.get(k) is v for k, v in h.items()} if g.__setattr__('armed', False) is None else {}}
 
 
-_LOWERING_DEBUG = re.compile(r'^BareScript: Function "(arrayLength|arrayGet)" failed with error:')
+_LOWERING_DEBUG = re.compile(r'^BareScript: .*"(arrayLength|arrayGet)"')
 
 
 def _nolower(logs):
@@ -116,10 +116,16 @@ def _nolower(logs):
     return [l for l in logs if not _LOWERING_DEBUG.match(l)]
 
 
+def _norm_status(st):
+    if isinstance(st, str) and st.startswith('rterr:'):
+        return ('rterr', refval.norm_error(st[6:]))
+    return st
+
+
 def same(a, b):
     """None if the observable behaviour agrees, else the name of the first differing component."""
-    a = dict(a, logs=_nolower(a['logs']))
-    b = dict(b, logs=_nolower(b['logs']))
+    a = dict(a, logs=[refval.norm_log(l) for l in _nolower(a['logs'])], status=_norm_status(a['status']))
+    b = dict(b, logs=[refval.norm_log(l) for l in _nolower(b['logs'])], status=_norm_status(b['status']))
     if a['status'] != b['status']:
         return 'status'
     if a['status'] == 'diverge':
